@@ -33,7 +33,22 @@ BAD_DT = {'date': date(2020, 1, 1), 'str': '2020-01-01', 'none': None, 'int': 5}
 
 def _col(K, shapes):
     L = U.lib()
-    return (L['FeatureCollection'] if K == 'F' else L['Track'])(list(shapes))
+    return (L['FeatureCollection'] if K == 'F' else L['Track'])(shapes)      # `shapes` is the caller's list object
+
+
+def _arg_flag(arg, shapes):
+    """the constructor must leave the list it was handed as it was (same objects, same order)"""
+    return '' if [id(x) for x in arg] == [id(x) for x in shapes] else ' !ARG-CHANGED'
+
+
+_RECV = [None]      # the receiver(s) of the operation in progress: a result must not share their list objects
+
+
+def _alias_flag(r):
+    for c in _RECV[0] or ():
+        if c is not None and (r is c or r.geoshapes is c.geoshapes):
+            return ' !ALIAS'
+    return ''
 
 
 def _tag(r):
@@ -45,9 +60,15 @@ def _ids(idmap, xs):
     return ' '.join(str(idmap.get(id(x), '?')) for x in xs)
 
 
+def _show_plain(idmap, r):
+    """tag + member ids only: reads no cached observation of `r` (so it can be shown again after the user changed it)"""
+    s = _ids(idmap, r.geoshapes)
+    return _tag(r) if not s else _tag(r) + ' ' + s
+
+
 def _show_col(idmap, r):
     s = _ids(idmap, r.geoshapes)
-    return (_tag(r) if not s else _tag(r) + ' ' + s) + U.stale(r)
+    return (_tag(r) if not s else _tag(r) + ' ' + s) + U.stale(r) + _alias_flag(r)
 
 
 def _query(tok):
@@ -132,17 +153,23 @@ def impl(line):
     op, secs = U.sections(line)
     if op == 'vertices':
         return impl_vertices(line)
+    if op == 'hist':
+        return impl_hist(line)
     K = secs[0][0]
     toks = [U.Tok(t) for t in secs[1]]
     shapes = [t.build() for t in toks]
     idmap = {id(s): t.id for s, t in zip(shapes, toks)}
-    col = _col(K, shapes)                      # a Track of time-less shapes raises here -> ERR:Value
+    arg = list(shapes)
+    col = _col(K, arg)                         # a Track of time-less shapes raises here -> ERR:Value
     rest = secs[2:]
+    _RECV[0] = (col,)
     if op == 'add':
         toks2 = [U.Tok(t) for t in rest[1]]
         shapes2 = [t.build() for t in toks2]
         idmap.update({id(s): t.id for s, t in zip(shapes2, toks2)})
-        col2 = _col(rest[0][0], shapes2)
+        arg2 = list(shapes2)
+        col2 = _col(rest[0][0], arg2)
+        _RECV[0] = (col, col2)
         U.warm(col)
         U.warm(col2)
         b1, b2 = U.snapshot(col), U.snapshot(col2)
@@ -151,7 +178,8 @@ def impl(line):
         except Exception as e:  # noqa
             ans = common.err_name(e)
         out = f'{ans} # {_ids(idmap, col.geoshapes)} # {_ids(idmap, col2.geoshapes)}'
-        return out + (' MUTATED' if (b1, b2) != (U.snapshot(col), U.snapshot(col2)) else '')
+        return out + (' MUTATED' if (b1, b2) != (U.snapshot(col), U.snapshot(col2)) else '') + \
+            _arg_flag(arg, shapes) + _arg_flag(arg2, shapes2)
     U.warm(col)
     before = U.snapshot(col)
     try:
@@ -159,7 +187,206 @@ def impl(line):
     except Exception as e:  # noqa
         ans = common.err_name(e)
     out = f'{ans} # {_ids(idmap, col.geoshapes)}'
-    return out + (' MUTATED' if before != U.snapshot(col) else '')
+    return out + (' MUTATED' if before != U.snapshot(col) else '') + _arg_flag(arg, shapes)
+
+
+# ---- observe - mutate - observe histories (fc.hist) -------------------------------------------------------------------
+# fc.hist K A | shapes || step || step ...      (see Drv/C18.lean)
+#   mutations by the *user* (plain Python list operations / in-place member updates, never library calls):
+#     m.<g|a|s>.<set i tok | pop i | append tok.. | insert i tok | slice a b tok.. | reverse | sortdesc | clear>
+#       g = collection.geoshapes, a = the list object handed to the constructor, s = sibling.geoshapes
+#     setdt <id> <dt> | setprop <id> <k> <v>
+#   sib K2 A2 (second collection from the same list) | copy (collection.copy())
+#   observations: o.<any fc op> ... | in2 <item id> <b:table of (x is item or x == item)> | eqfresh | arg | sibiter
+
+def _hist_split(line):
+    head, *steps = line.split(' || ')
+    _op, secs = U.sections(head)
+    return secs[0][0], secs[0][1], secs[1], [st.split() for st in steps]
+
+
+def _step_rest(ts):
+    """tokens after `o.<op>` -> the sections the single-operation handlers take"""
+    if not ts:
+        return []
+    secs, cur = [], []
+    for t in ts:
+        if t == '|':
+            secs.append(cur)
+            cur = []
+        else:
+            cur.append(t)
+    return secs + [cur]
+
+
+def _list_mut(lst, mut, a, obj):
+    if mut == 'set':
+        lst[int(a[0])] = obj(a[1])
+    elif mut == 'pop':
+        lst.pop(int(a[0]))
+    elif mut == 'append':
+        lst.extend(obj(t) for t in a)
+    elif mut == 'insert':
+        lst.insert(int(a[0]), obj(a[1]))
+    elif mut == 'slice':
+        lst[int(a[0]):int(a[1])] = [obj(t) for t in a[2:]]
+    elif mut == 'reverse':
+        lst.reverse()
+    elif mut == 'sortdesc':
+        lst.sort(key=lambda x: x.start, reverse=True)
+    elif mut == 'clear':
+        lst.clear()
+    else:
+        raise ValueError('unknown mutation ' + mut)
+
+
+class HistImpl:
+    """the real objects of one history; used by impl() and (to measure the per-shape tables) by the generator"""
+
+    def __init__(self, K, tokens):
+        self.toks = [U.Tok(t) for t in tokens]
+        self.shapes = [t.build() for t in self.toks]
+        self.objs = {t.id: s for t, s in zip(self.toks, self.shapes)}
+        self.idmap = {id(s): t.id for t, s in zip(self.toks, self.shapes)}
+        self.arg = list(self.shapes)
+        self.col = _col(K, self.arg)
+        self.flag = _arg_flag(self.arg, self.shapes)
+        self.sib = None
+
+    def obj(self, tok):
+        t = U.Tok(tok)
+        if t.id not in self.objs:
+            self.objs[t.id] = t.build()
+            self.idmap[id(self.objs[t.id])] = t.id
+        return self.objs[t.id]
+
+    def step(self, st):
+        cmd, a = st[0], st[1:]
+        col = self.col
+        if cmd == 'setdt':
+            self.objs[int(a[0])].set_dt(U.mk_dt(None if a[1] == 'n' else tuple(int(x) for x in a[1].split(':'))))
+            return '-'
+        if cmd == 'setprop':
+            self.objs[int(a[0])].set_property(a[1], U.val_of(a[2]))
+            return '-'
+        if cmd == 'sib':
+            self.sib = None
+            self.sib = _col(a[0], self.arg)
+            return _show_plain(self.idmap, self.sib)
+        if cmd == 'copy':
+            self.sib = None
+            self.sib = col.copy()
+            return _show_plain(self.idmap, self.sib) + (' !ALIAS' if self.sib.geoshapes is col.geoshapes else '')
+        if cmd == 'arg':
+            return 'A ' + _ids(self.idmap, self.arg)
+        if cmd == 'sibiter':
+            return 'none' if self.sib is None else _show_plain(self.idmap, self.sib)
+        if cmd.startswith('m.'):
+            _m, t, mut = cmd.split('.')
+            lst = {'g': col.geoshapes, 'a': self.arg, 's': None if self.sib is None else self.sib.geoshapes}[t]
+            _list_mut(lst, mut, a, self.obj)
+            return '-'
+        before = U.snapshot(col)
+        _RECV[0] = (col,)
+        try:
+            if cmd == 'in2':
+                ans = tf(self.obj(a[0]) in col)
+            elif cmd == 'eqfresh':
+                ans = tf(col == type(col)(list(col.geoshapes)) and not (col != type(col)(list(col.geoshapes))))
+            else:
+                ans = _do(cmd[2:], col, self.shapes, self.idmap, _step_rest(a), self.toks)
+        except Exception as e:  # noqa
+            ans = common.err_name(e)
+        out = f'{ans} # {_ids(self.idmap, col.geoshapes)}'
+        return out + (' MUTATED' if before != U.snapshot(col) else '')
+
+
+def impl_hist(line):
+    K, _A, tokens, steps = _hist_split(line)
+    h = HistImpl(K, tokens)                    # a Track of time-less shapes raises here -> ERR:Value
+    _RECV[0] = None
+    U.warm(h.col)
+    outs = [_show_col(h.idmap, h.col)]
+    for st in steps:
+        try:
+            outs.append(h.step(st))
+        except Exception as e:  # noqa
+            outs.append(common.err_name(e))
+    return ' ; '.join(outs) + h.flag
+
+
+class HistSpec:
+    """the statement's reading of a history: every observation answers what a collection over the *current* members
+    answers.  List objects are real Python lists, so aliasing is literal: a FeatureCollection that keeps the caller's
+    list (A = 1, as measured; nothing in the statement forbids or demands it) *is* that list; a Track never is (its
+    members are a chronological copy taken at construction)."""
+
+    def __init__(self, K, A, tokens):
+        self.K = K
+        self.toks = {}
+        self.a = [self.tok(t) for t in tokens]
+        recv = _receiver(K, self.a)
+        if recv is None:
+            raise ValueError('ERR:Value')
+        self.g = self.a if (K == 'F' and A == '1') else recv
+        self.s = self.sK = None
+
+    def tok(self, t):
+        t = U.Tok(t)
+        return self.toks.setdefault(t.id, t)
+
+    def step(self, st):
+        cmd, a = st[0], st[1:]
+        if cmd == 'setdt':
+            self.toks[int(a[0])].dt = None if a[1] == 'n' else tuple(int(x) for x in a[1].split(':'))
+            return '-'
+        if cmd == 'setprop':
+            t = self.toks[int(a[0])]
+            t.props = [(k, a[2] if k == a[1] else v) for k, v in t.props] + ([] if a[1] in dict(t.props) else [(a[1], a[2])])
+            return '-'
+        if cmd in ('sib', 'copy'):
+            K2 = a[0] if cmd == 'sib' else self.K
+            src = self.a if cmd == 'sib' else self.g
+            self.s, self.sK = None, K2
+            recv = _receiver(K2, src)
+            if recv is None:
+                return 'ERR:Value'
+            self.s = src if (cmd == 'sib' and K2 == 'F' and a[1] == '1') else list(recv)
+            return _coll(K2, self.s)
+        if cmd == 'arg':
+            return 'A ' + ' '.join(str(t.id) for t in self.a)
+        if cmd == 'sibiter':
+            return 'none' if self.s is None else _coll(self.sK, self.s)
+        if cmd.startswith('m.'):
+            _m, t, mut = cmd.split('.')
+            lst = {'g': self.g, 'a': self.a, 's': self.s}[t]
+            try:
+                if mut == 'sortdesc':
+                    lst.sort(key=lambda x: x.start, reverse=True)
+                else:
+                    _list_mut(lst, mut, a, self.tok)
+            except IndexError:
+                return 'ERR:Index'
+            return '-'
+        src = ' '.join(str(t.id) for t in self.g)
+        if cmd == 'in2':
+            tbl = _bits(a[1])
+            return f'{tf(any(tbl[t.id] for t in self.g))} # {src}'     # some member is the item or equals it
+        if cmd == 'eqfresh':
+            return f'T # {src}'
+        return _spec_on(self.K, self.g, cmd[2:], _step_rest(a))
+
+
+def spec_hist(line):
+    K, A, tokens, steps = _hist_split(line)
+    try:
+        h = HistSpec(K, A, tokens)
+    except ValueError as e:
+        return str(e)
+    outs = [_coll(K, h.g)]
+    for st in steps:
+        outs.append(h.step(st) or '?')
+    return ' ; '.join(outs)
 
 
 # ---- the property, stated independently of the model ----------------------------------------------
@@ -184,6 +411,8 @@ def _bits(tok):
 
 def spec(line):
     op, secs = U.sections(line)
+    if op == 'hist':
+        return spec_hist(line)
     if op in ('vertices', 'intersects', 'geospan'):
         return None                              # judged through the model (and np-hull) only
     K = secs[0][0]
@@ -191,7 +420,11 @@ def spec(line):
     recv = _receiver(K, toks)
     if recv is None:
         return 'ERR:Value'
-    rest = secs[2:]
+    return _spec_on(K, recv, op, secs[2:])
+
+
+def _spec_on(K, recv, op, rest):
+    """what the statement demands of operation `op` on a collection of class K whose members are `recv` (in this order)"""
     ids = [str(t.id) for t in recv]
     src = ' '.join(ids)
 
@@ -199,8 +432,16 @@ def spec(line):
         return f'{ans} # {src}'
 
     def filt(pred):
-        # same class, exactly the members satisfying the predicate, original order
-        return out(_coll(K, [t for t in recv if pred(t)]))
+        # same class, exactly the members satisfying the predicate, original order (a Track: chronological, which is
+        # the original order unless the user tampered with the member list; it refuses time-less shapes)
+        keep = [t for t in recv if pred(t)]
+        if K == 'T':
+            if any(t.dt is None for t in keep):
+                return out('ERR:Value')
+            keep = U.stable_by_start(keep)
+        return out(_coll(K, keep))
+    if op == 'intersects':
+        return None
     if op == 'len':
         return out(str(len(recv)))
     if op == 'bool':
@@ -571,6 +812,162 @@ def scenario_lines(rng, K, n, hist, world=None):
     return lines, span
 
 
+def hist_line(rng, K, hist):
+    """one observe - mutate - observe history.  The generator walks the real objects (to measure the per-shape tables
+    at every observation: they change with in-place member updates) and the statement's state machine (to know the
+    current lengths); neither reads the collection under test."""
+    n, m = rng.randrange(1, 7), 4
+    world = Globe(rng) if rng.random() < 0.15 else None
+    specs = rand_specs(rng, n + m, 0.0 if K == 'T' else 0.3, True, world.geom if world else None)
+    toks, _ = U.make_tokens(specs)
+    try:
+        h = HistImpl(K, toks[:n])
+    except Exception:  # noqa
+        return None
+    pool = [h.obj(t) for t in toks[n:]]                                  # shapes the user will put in later
+    everyone = h.shapes + pool
+    A = '1' if h.col.geoshapes is h.arg else '0'
+    probe = []
+    AF = '1' if _col('F', probe).geoshapes is probe else '0'             # does a FeatureCollection keep the caller's list?
+    sp = HistSpec(K, A, toks[:n])
+    steps = []
+    mutated = [False]
+    dirty = set()       # ids updated in place: their tokens are stale and are not used to (re)introduce them
+
+    def do(st):
+        steps.append(st)
+        try:
+            h.step(st.split())
+        except Exception:  # noqa   (raises on the implementation: the step stays in the history)
+            pass
+        sp.step(st.split())
+
+    items = [toks[rng.randrange(n)], toks[n], toks[n + 1]] + ([toks[rng.randrange(n)]] if n > 1 else [])
+    qg = (world.query(rng) if world else rand_geom(rng, ['P', 'B', 'B', 'C', 'G']))
+    qdt = rand_dt(rng, 0.5)
+    inst = rng.choice([d for _g, dt, _p in specs if dt for d in dt] or [U.T(0)])
+
+    def observe():
+        for it in items:
+            x = h.obj(it)
+            do(f'in2 {it} ' + _table(everyone, lambda y: y is x or y == x))
+        ng = len(sp.g)
+        obs = ['len', 'iter', 'bool', 'idx', 'slice', 'fdt_inst', 'fdt_ival', 'fisect', 'fcontains', 'fcontained',
+               'intersects', 'fprop'] + (['bounds'] if not mutated[0] else []) + (['eqfresh'] if K == 'F' else [])
+        for o in rng.sample(obs, rng.randrange(4, 8)):
+            if o in ('len', 'iter', 'bool'):
+                do('o.' + o)
+            elif o == 'eqfresh':
+                do('eqfresh')
+            elif o == 'idx' and K == 'F':
+                do(f'o.getidx {rng.randrange(-ng - 1, ng + 1)}')
+            elif o == 'slice' and K == 'F':
+                do(f'o.getslice {rng.choice(["-", "0", "1", "-1"])} {rng.choice(["-", "2", "-1"])} {rng.choice(["-", "-1", "2"])}')
+            elif o == 'fdt_inst':
+                do(f'o.fdt_inst {inst}')
+            elif o == 'fdt_ival':
+                do(f'o.fdt_ival {min(inst, U.T(3))} {max(inst, U.T(3))}')
+            elif o in ('fisect', 'fcontains', 'fcontained', 'intersects'):
+                q = U.build_geom(qg, qdt)
+                try:
+                    if o in ('fisect', 'intersects'):
+                        t1, t2 = _table(everyone, lambda x: x.intersects(q)), _table(everyone, lambda x: q.intersects(x))
+                    else:
+                        t1, t2 = _table(everyone, lambda x: x.contains(q)), _table(everyone, lambda x: q.contains(x))
+                except Exception:  # noqa
+                    continue
+                if o == 'intersects':
+                    do(f'o.intersects {qg} {U.show_dt(qdt)} | {t1}')
+                else:
+                    do(f'o.{o} {qg};{U.show_dt(qdt)} | {t1} {t2}')
+            elif o == 'fprop':
+                do(f'o.fprop c | {",".join(sorted({f"u{rng.randrange(len(U.VALS))}" for _ in range(3)}))}')
+            elif o == 'bounds':
+                try:
+                    do('o.bounds ' + ' '.join(','.join(common.rat(v) for v in x.bounds) for x in everyone))
+                except Exception:  # noqa
+                    pass
+
+    def new_dt():
+        while True:
+            dt = rand_dt(rng, 0.0 if K == 'T' else 0.2)
+            if K != 'T' or dt is not None:
+                return dt
+
+    def mutate():
+        ng, na = len(sp.g), len(sp.a)
+        kinds = ['set', 'popappend', 'setdt', 'setdt', 'setprop', 'insert', 'pop', 'slice', 'arg', 'arg', 'sib', 'copy']
+        if K == 'F':
+            kinds += ['reverse']
+        k = rng.choice(kinds)
+        fresh = [t for t in toks[n:] if int(t.split(';')[0]) not in dirty]
+        if not fresh:
+            k = 'setdt'
+        newtok = rng.choice(fresh or toks[n:])
+        mutated[0] = True
+        if k == 'set' and ng:
+            do(f'm.g.set {rng.randrange(ng)} {newtok}')
+        elif k == 'popappend' and ng:
+            do(f'm.g.pop {rng.randrange(ng)}')
+            do(f'm.g.append {newtok}')
+        elif k == 'setdt':
+            i = rng.choice(sorted(sp.toks))                               # a member, or a shape that was one
+            dirty.add(i)
+            do(f'setdt {i} {U.show_dt(new_dt())}')
+        elif k == 'setprop':
+            i = rng.choice(sorted(sp.toks))
+            dirty.add(i)
+            do(f'setprop {i} c u{rng.randrange(len(U.VALS))}')
+        elif k == 'insert':
+            do(f'm.g.insert {rng.randrange(ng + 1)} {newtok}')
+        elif k == 'pop' and ng:
+            do(f'm.g.pop {rng.randrange(ng)}')
+        elif k == 'slice':
+            i = rng.randrange(ng + 1)
+            j = rng.randrange(i, ng + 1)
+            do(f'm.g.slice {i} {j} ' + ' '.join(rng.sample(fresh, min(len(fresh), rng.randrange(0, 3)))))
+        elif k == 'reverse':
+            do('m.g.reverse')
+        elif k == 'arg':
+            # the caller keeps using the list it handed to the constructor
+            timed = all(t.dt is not None for t in sp.a)
+            c = rng.choice(['append', 'append', 'reverse', 'pop', 'clear'] + (['sortdesc'] if timed and na > 1 else []))
+            if c == 'append':
+                do(f'm.a.append {newtok}')
+            elif c == 'pop' and na:
+                do(f'm.a.pop {na - 1}')
+            elif c in ('reverse', 'sortdesc', 'clear'):
+                do(f'm.a.{c}')
+            do('arg')
+        elif k == 'sib':
+            K2 = rng.choice(['F', 'T'])
+            if K2 == 'T' and any(t.dt is None for t in sp.a):
+                K2 = 'F'
+            do(f'sib {K2} {AF if K2 == "F" else "0"}')
+            if sp.s is not None:
+                do(f'm.s.append {newtok}')
+                if len(sp.s) > 1 and K2 == 'F':
+                    do('m.s.reverse')
+                do('sibiter')
+                do('arg')
+        elif k == 'copy':
+            do('copy')
+            if sp.s is not None:
+                do(f'm.s.append {newtok}')
+                if sp.g:
+                    do(f'm.g.pop {rng.randrange(len(sp.g))}')
+                do('sibiter')
+
+    do('arg')
+    observe()
+    for _ in range(rng.choice([1, 1, 2, 3])):
+        for _ in range(rng.choice([1, 1, 2])):
+            mutate()
+        observe()
+    hist['hist:' + K + ('-aliased' if A == '1' else '')] += 1
+    return f'fc.hist {K} {A} | ' + ' '.join(toks[:n]) + ' || ' + ' || '.join(steps)
+
+
 def hull_lines(rng, count):
     """(vertices lines for the model, np-hull lines)"""
     vl, hl = [], []
@@ -602,6 +999,8 @@ def hull_lines(rng, count):
 
 def check(run):
     run.prove(MODULE, THEOREMS)
+    run.source_tie(['SrcColl', 'SrcTime'], 'GeoVerif.Props.C18Src',
+                   ['GV.C18Src.' + t for t in ('filterByDtIval_eq', 'filterByDtInst_eq', 'filterByIntersection_eq', 'filterContainedBy_eq', 'filterContains_eq', 'intersects_eq', 'src_filterByDt_inst', 'src_filterByDt_ival', 'src_filterByIntersection_exact', 'src_filterContains_exact', 'src_filterContainedBy_exact')])
     rng = run.rng
 
     def tag(ln, a):
@@ -642,6 +1041,14 @@ def check(run):
             run.run_cases('random-collections', lines, impl, spec, tag=tag)
             lines = []
     run.run_cases('random-collections', lines, impl, spec, tag=tag)
+
+    # observe - mutate - observe histories on the list protocol and every query, incl. constructor-argument aliasing
+    lines = [ln for ln in (hist_line(rng, 'F' if k % 2 == 0 else 'T', run.hist) for k in range(run.scale(200, 5000))) if ln]
+    def same_steps(a, sp):
+        x, y = a.split(' ; '), sp.split(' ; ')
+        return len(x) == len(y) and all(p == q or q == '?' for p, q in zip(x, y))     # `?`: the statement is silent
+    run.run_cases('observe-mutate-observe', lines, impl, spec, spec_compare=same_steps,
+                  tag=lambda ln, a: ['fc.hist'] + ['hist-step:' + st.split()[0] for st in ln.split(' || ')[1:]])
 
     def close(a, m):
         (x, _, sa), (y, _, sm) = a.partition(' # '), m.partition(' # ')
